@@ -2,7 +2,7 @@ import Momtrop.Props.C04
 import Momtrop.Props.C06
 import Momtrop.Props.C07
 import Momtrop.Props.C08
-import Momtrop.Props.C10
+import Momtrop.Props.C10Law
 import Momtrop.Props.C11
 import Momtrop.Props.C12
 import Momtrop.Props.C13BM
@@ -60,6 +60,12 @@ structure Reduction : Prop where
       (Li Qti : Matrix (Fin L) (Fin L) ℝ), lMat S x * Li = 1 → Qtiᵀ * lMat S x * Qti = 1 →
       (S *ᵥ (c • (Qti *ᵥ q) - Li *ᵥ uVec S x p) + p) ⬝ᵥ (diagonal x *ᵥ (S *ᵥ (c • (Qti *ᵥ q) - Li *ᵥ uVec S x p) + p))
         = c ^ 2 * (q ⬝ᵥ q) + C09.Vabs S x p Li
+  /-- (v') law of the loop momenta: Gaussian with centre `−L⁻¹u` and covariance `c²L⁻¹` -/
+  momentaLaw : ∀ {L : ℕ} (Lm Qti Li : Matrix (Fin L) (Fin L) ℝ) (c : ℝ), 0 < c → Qtiᵀ * Lm * Qti = 1 → Lmᵀ = Lm →
+      ∀ (u : Fin L → ℝ) (f : (Fin L → ℝ) → ENNReal), Measurable f →
+      ∫⁻ q, f (c • (Qti *ᵥ q) - Li *ᵥ u) * ENNReal.ofReal (Real.exp (-(q ⬝ᵥ q) / 2))
+        = ENNReal.ofReal (Real.sqrt Lm.det / c ^ L) *
+          ∫⁻ k, f k * ENNReal.ofReal (Real.exp (-((k + Li *ᵥ u) ⬝ᵥ (Lm *ᵥ (k + Li *ᵥ u))) / (2 * c ^ 2)))
   /-- (vi) the Jacobian determinant of the momentum map -/
   jac : ∀ {L : ℕ} (Lm Qti : Matrix (Fin L) (Fin L) ℝ) (c : ℝ), Qtiᵀ * Lm * Qti = 1 →
       (c • Qti).det ^ 2 * Lm.det = c ^ (2 * L)
@@ -76,6 +82,7 @@ theorem reduction : Reduction where
   gauss := fun a b h0 h1 => C13.box_muller_radius a b h0 h1
   gaussLaw := fun f hf => C13.boxMuller_law_model f hf
   momenta := fun S x p q c Li Qti h1 h2 => C10.propSum_at_sample S x p q c Li Qti h1 h2
+  momentaLaw := fun Lm Qti Li c hc hQ hs u f hf => C10.momenta_law Lm Qti Li c hc hQ hs u f hf
   jac := fun Lm Qti c h => det_momentum_map Lm Qti c h
   gauge := fun halfD dod s U V Utr Vtr L h1 h2 h3 h4 h5 h6 => C11.gauge_invariant halfD dod s U V Utr Vtr L h1 h2 h3 h4 h5 h6
 
